@@ -26,12 +26,13 @@ import (
 )
 
 type Req struct {
-	ID   int     `json:"id"`
-	Kind string  `json:"kind"` // call | op | tpl
-	Fn   string  `json:"fn,omitempty"`
-	Args []VSpec `json:"args,omitempty"`
-	Tpl  string  `json:"tpl,omitempty"`
-	Full bool    `json:"full,omitempty"` // return the whole rendered result (correspondence cases)
+	ID    int     `json:"id"`
+	Kind  string  `json:"kind"` // call | op | tpl
+	Fn    string  `json:"fn,omitempty"`
+	Args  []VSpec `json:"args,omitempty"`
+	Tpl   string  `json:"tpl,omitempty"`
+	Full  bool    `json:"full,omitempty"` // return the whole rendered result (correspondence cases)
+	Args2 []VSpec `json:"args2,omitempty"`
 }
 
 // Out is what one entry point did.
@@ -167,6 +168,30 @@ func (w *workerState) handle(req *Req) Resp {
 			}
 			describeValue(o, opTable[req.Fn](w.env, args[0], args[1]), req.Full)
 		}))
+	case "scale":
+		// the same function or operator on two tuples (the second: the same numbers at another scale)
+		for _, specs := range [][]VSpec{req.Args, req.Args2} {
+			specs := specs
+			resp.Out = append(resp.Out, guarded(func(o *Out) {
+				args := make([]types.XValue, len(specs))
+				for i := range specs {
+					args[i] = specs[i].build(w.env)
+				}
+				if req.Fn == "op:neg" {
+					describeValue(o, operators.Negate(w.env, args[0]), true)
+					return
+				}
+				if op := opTable[req.Fn]; op != nil {
+					describeValue(o, op(w.env, args[0], args[1]), true)
+					return
+				}
+				fn := functions.XFUNCTIONS[req.Fn]
+				if fn == nil {
+					fn = cases.XTESTS[req.Fn]
+				}
+				describeValue(o, fn.Call(w.env, args), true)
+			}))
+		}
 	case "lookup":
 		// resolveLookup through a parsed expression: c[l] or c.<name>, with c and l bound in the scope
 		resp.Out = append(resp.Out, guarded(func(o *Out) {
